@@ -123,6 +123,8 @@ def run(ctx):
     slicecheck.write_cfg(ctx, "FoSampleMd_run.cfg",
                          "CONSTANTS\n  MaxEntries = %d\n  OutFile = \"md_cases.ndjson\"\nSPECIFICATION Spec\nINVARIANTS Complete NoPartial FailsIffUnreadable\nCHECK_DEADLOCK FALSE\n" % n)
     ctx.tlc("FoSampleMdMC", "FoSampleMd_run.cfg", workers=4, timeout=3000, heap_gb=8)
+    # unbounded: Complete / NoPartial / FailsIffUnreadable as consequences of an inductive invariant, for every list file and file system
+    ctx.extra["tlaps_obligations_proved_FoSampleMdProof"] = ctx.tlapm("FoSampleMdProof")
     scs = core.read_ndjson(os.path.join(sd, "md_cases.ndjson"))
     obs, bad = run_scenarios(ctx, scs)
     for i, o in enumerate(obs):
